@@ -3,7 +3,7 @@
 
 package encoder
 
-func CompileToGetCodeSet(ctx *RuntimeContext, typeptr uintptr) (*OpcodeSet, error) {
+func compileToGetCodeSet(typeptr uintptr) (*OpcodeSet, error) {
 	initEncoder()
 	if typeptr > typeAddr.MaxTypeAddr || typeptr < typeAddr.BaseTypeAddr {
 		codeSet, err := compileToGetCodeSetSlowPath(typeptr)
@@ -11,30 +11,18 @@ func CompileToGetCodeSet(ctx *RuntimeContext, typeptr uintptr) (*OpcodeSet, erro
 			return nil, err
 		}
 		verifSlot(false, 0, typeptr, codeSet)
-		filtered, err := getFilteredCodeSetIfNeeded(ctx, codeSet)
-		verifProgram(typeptr, filtered)
-		return filtered, err
+		return codeSet, nil
 	}
 	index := (typeptr - typeAddr.BaseTypeAddr) >> typeAddr.AddrShift
 	if codeSet := cachedOpcodeSets[index]; codeSet != nil {
 		verifSlot(true, index, typeptr, codeSet)
-		filtered, err := getFilteredCodeSetIfNeeded(ctx, codeSet)
-		if err != nil {
-			return nil, err
-		}
-		verifProgram(typeptr, filtered)
-		return filtered, nil
+		return codeSet, nil
 	}
 	codeSet, err := newCompiler().compile(typeptr)
 	if err != nil {
 		return nil, err
 	}
 	verifSlot(true, index, typeptr, codeSet)
-	filtered, err := getFilteredCodeSetIfNeeded(ctx, codeSet)
-	if err != nil {
-		return nil, err
-	}
 	cachedOpcodeSets[index] = codeSet
-	verifProgram(typeptr, filtered)
-	return filtered, nil
+	return codeSet, nil
 }
